@@ -383,15 +383,18 @@ func snap(r *http.Request) snapshot {
 }
 
 type recorder struct {
-	calls int
-	req   *http.Request
-	seen  snapshot
+	calls   int
+	req     *http.Request
+	seen    snapshot
+	hdrSeen http.Header // response header as the next handler found it on entry
 }
 
 func (n *recorder) ServeHTTP(w http.ResponseWriter, r *http.Request) {
 	n.calls++
 	n.req = r
 	n.seen = snap(r)
+	n.hdrSeen = w.Header().Clone()
+	// no Content-Type is set here: like a file server or a sniffing handler, it relies on finding none
 	w.Header().Set("X-Next", "1")
 	w.WriteHeader(nextStatus)
 	_, _ = w.Write([]byte(nextBody))
@@ -464,6 +467,17 @@ func CheckMW(c MWCase) *kit.Violation {
 	if v := kit.Guard("constructing the middleware", func() { h = c.build(nh) }); v != nil {
 		return kit.Failf("%s\n%s", v.Msg, c.brief())
 	}
+	// other documentation middlewares are constructed afterwards (an application installs several): what they render
+	// must not show up in, or replace, the page of the middleware under test
+	if v := kit.Guard("constructing further middlewares", func() {
+		for _, kind := range []string{"redoc", "swaggerui", "oauth2", "rapidoc"} {
+			d := MWCase{Kind: kind, Template: 0, BasePath: "/other", Path: "elsewhere-" + kind, Title: "another page " + kind + strings.Repeat(" filler", 40),
+				SpecURL: "/other/" + kind + ".json", SpecBytes: kit.BStr("{}")}
+			_ = d.build(nil)
+		}
+	}); v != nil {
+		return kit.Failf("%s\n%s", v.Msg, c.brief())
+	}
 	doc := c.DocPath()
 	pageChecked := false
 	for _, q := range c.Reqs {
@@ -522,6 +536,15 @@ func CheckMW(c MWCase) *kit.Violation {
 			}
 			if rec.Code != nextStatus || body != nextBody {
 				return kit.Failf("RESPONSE-ALTERED %s: the next handler's answer arrived as %d %q\n%s", what, rec.Code, body, c.brief())
+			}
+			if len(next.hdrSeen) != 0 {
+				return kit.Failf("RESPONSE-PREPARED %s is not the middleware's business, yet the next handler found response headers already set: %v\n%s", what, next.hdrSeen, c.brief())
+			}
+			// the composed answer equals what the next handler produces on its own
+			alone := httptest.NewRecorder()
+			(&recorder{}).ServeHTTP(alone, newRequest(q))
+			if !reflect.DeepEqual(rec.Header(), alone.Header()) {
+				return kit.Failf("RESPONSE-ALTERED %s: response headers %v, the next handler alone answers with %v\n%s", what, rec.Header(), alone.Header(), c.brief())
 			}
 			continue
 		}
